@@ -279,6 +279,7 @@ def judge(case: dict) -> dict:
 
 def run(ctx: Ctx) -> None:
     ctx.rule = (
+        "(half of the signatures take their parameter names from a pool shared by all functions of the package) "
         "signatures: exhaustive kind sequences (length<=3 quick / <=5 thorough) x legal default masks x 5 holders "
         "(function, method, static, classmethod, constructor), plus Hypothesis-drawn signatures (0-8 parameters, drawn "
         "annotations, literal and non-literal defaults, odd receivers) batched ~40 functions per package; "
